@@ -423,6 +423,16 @@ pub fn run(op: &str, args: &[String]) -> Option<String> {
     if op == "interp.hist" || op == "interp.histbits" || op == "interp.histtx" || op == "interp.histtxbits" {
         return Some(do_hist(op, args));
     }
+    if op == "interp.step_vs_runasm" {
+        // the ASM constructor: opcode names become bare ScriptBit::OpCode bits (also OP_PUSHDATA1/2/4)
+        return Some(match arg_str(args, 0) {
+            None => "BADARG".into(),
+            Some(text) => match Script::from_asm_string(&text) {
+                Ok(s) => do_step_vs_run(&s),
+                Err(_) => "ERR".into(),
+            },
+        });
+    }
     if op == "interp.txsafe" {
         return Some(do_txsafe(args));
     }
